@@ -16,7 +16,8 @@ RULE = ("MDP specs: discounted (any structure, implicit+explicit absorbing state
         "bound, exact V*, V* + non-negative per-state slack incl. at absorbing states) x seed (None, 0, ...) x "
         "randomize_action_order x randomize_nextstate_order. Oracle: policy-enumeration V*, exact evaluation of the "
         "returned policy over its own closure, listener invariant after every main-loop iteration. Non-trivial: >=3 "
-        "reachable states, a stochastic action, inexact heuristic and >=2 expansions; distinct by spec hash.")
+        "reachable states, a stochastic action, inexact heuristic and >=2 expansions; distinct by spec hash."
+        ' Also: MDPs of 16-45 states, None as an action label, heuristic-relative ties.')
 ASSUMPTIONS = ["reference V* by deterministic-policy enumeration (certified by Bellman residual)", "tolerance 1e-8 "
                "(LAO* rounds action values to 10 decimals)"]
 TOL = 1e-8
